@@ -197,9 +197,8 @@ def finS8 (e : Em) : List (String × List Nat) → Em × FinRes
     | some target =>
       let r := patchS8 e.base target refs e.code
       let e1 := { e with code := r.1 }
-      match r.2 with
-      | .ok => finS8 { e1 with dS8 := delKey e1.dS8 lbl } rest
-      | err => (e1, err)
+      if r.2 = .ok then finS8 { e1 with dS8 := delKey e1.dS8 lbl } rest
+      else (e1, r.2)
 
 def finU16 (e : Em) : List (String × List Nat) → Em × FinRes
   | [] => (e, .ok)
@@ -209,15 +208,13 @@ def finU16 (e : Em) : List (String × List Nat) → Em × FinRes
     | some target =>
       let r := patchU16 e.base target refs e.code
       let e1 := { e with code := r.1 }
-      match r.2 with
-      | .ok => finU16 { e1 with dU16 := delKey e1.dU16 lbl } rest
-      | err => (e1, err)
+      if r.2 = .ok then finU16 { e1 with dU16 := delKey e1.dU16 lbl } rest
+      else (e1, r.2)
 
 def finalize (e : Em) : Em × FinRes :=
   let r := finS8 e e.dS8
-  match r.2 with
-  | .ok => finU16 r.1 r.1.dU16
-  | err => (r.1, err)
+  if r.2 = .ok then finU16 r.1 r.1.dU16
+  else (r.1, r.2)
 
 /-! Clone / Append -/
 
